@@ -14,6 +14,9 @@ pub fn units(tier: &str, _seed: u64) -> Vec<String> {
     for s in shapes {
         v.push(unit(&[("shape", s), ("n", "1"), ("fs", "PEN")]));
     }
+    // fractions of a Wh: the factor is the same function of production / use
+    v.push(unit(&[("shape", shapes[1]), ("n", "1"), ("fs", "PEN"), ("dom", "0.00001:0.01")]));
+    v.push(unit(&[("shape", shapes[0]), ("n", "1"), ("fs", "PEN"), ("dom", "0.0001:1")]));
     if tier == "thorough" {
         for s in &shapes[..3] {
             v.push(unit(&[("shape", s), ("n", "2"), ("fs", "PEN")]));
